@@ -222,8 +222,16 @@ def scalar_case(text, res, inst, load):
     res.hist['get_value:' + node.tag.split(':')[-1]] += 1
 
 
+HUGE = 16 ** 4400 - 1      # more decimal digits than str(int) accepts; such ints load from hexadecimal text
 SETVALS = ['', 's', '1', 'true', 'a b', 0, 1, -7, 10 ** 20, 0.0, 1.5, -2.5, 1e22, 1e-7, float('inf'), float('-inf'),
-           float('nan'), True, False, None]
+           float('nan'), True, False, None, HUGE, -HUGE, 10 ** 4299, 10 ** 4300, -(10 ** 4300), 2 ** 70]
+
+
+def rp(v):
+    try:
+        return repr(v)
+    except ValueError:
+        return '<int of %d bits>' % v.bit_length()
 INIT_NODES = [('s', P + 'str', 'x'), ('s', P + 'int', '1'), ('s', P + 'float', '1.5'), ('s', P + 'bool', 'true'),
               ('s', P + 'null', ''), ('s', P + 'timestamp', '2001-01-01'), ('q', P + 'seq', ()), ('m', P + 'map', ()),
               ('q', P + 'seq', (('s', P + 'int', '1'),)), ('m', P + 'map', ((('s', P + 'str', 'k'), ('s', P + 'int', '1')),))]
@@ -255,9 +263,31 @@ def set_value_cases(res):
                 ok = math.copysign(1, got) == math.copysign(1, v)
             if not ok:
                 res.violation('C14:set_value:%s' % type(v).__name__,
-                              'set_value(%r) on %s then get_value() -> %s, is_scalar(%s) -> %s' % (
-                                  v, init[:2], exc if exc is not None else repr(got), type(v).__name__, isk),
+                              'set_value(%s) on %s then get_value() -> %s, is_scalar(%s) -> %s' % (
+                                  rp(v), init[:2], exc if exc is not None else rp(got), type(v).__name__, isk),
                               {'kind': 'set_value', 'node': init, 'value_index': i})
+            if init[0] != 'm':
+                continue
+            # the same law through set_attribute(): new key and existing key
+            for key in ('k', 'new'):
+                res.transitions += 1
+                res.traces += 1
+                n = yatiml.Node(to_node(init))
+                try:
+                    n.set_attribute(key, v)
+                    got = n.get_attribute(key).get_value()
+                    isk = n.has_attribute_type(key, type(v))
+                    exc = None
+                except Exception as e:     # noqa
+                    exc, got, isk = e, None, None
+                ok = exc is None and type(got) is type(v) and (got == v or (got != got and v != v)) and isk is True
+                if ok and isinstance(v, float) and v == 0.0:
+                    ok = math.copysign(1, got) == math.copysign(1, v)
+                if not ok:
+                    res.violation('C14:set_attribute:%s' % type(v).__name__,
+                                  'set_attribute(%r, %s) on %s then get_attribute().get_value() -> %s, has_attribute_type(%s) -> %s' % (
+                                      key, rp(v), init[:2], exc if exc is not None else rp(got), type(v).__name__, isk),
+                                  {'kind': 'set_attribute', 'node': init, 'value_index': i, 'key': key})
     res.hist['set_value-cases'] += len(INIT_NODES) * len(SETVALS)
 
 
@@ -439,7 +469,7 @@ def replay(payload):
     if k == 'scalar':
         load = yatiml.load_function()
         scalar_case(payload['text'], res, load.loader(''), load)
-    elif k in ('set_value', 'classify'):
+    elif k in ('set_value', 'set_attribute', 'classify'):
         set_value_cases(res)
         res.violations = [v for v in res.violations if v['replay'] == payload or k == 'classify']
     else:
